@@ -8,10 +8,10 @@ Import ListNotations.
 Open Scope Z_scope.
 
 Definition wsame (a b : wstate) : Prop :=
-  (forall x, get_acc (ws_world a) x = get_acc (ws_world b) x) /\ ws_logs a = ws_logs b.
+  (forall x, get_acc (ws_world a) x = get_acc (ws_world b) x) /\ ws_logs a = ws_logs b /\ ws_dead a = ws_dead b.
 Lemma wsame_refl a : wsame a a. Proof. split; auto. Qed.
 Lemma wsame_trans a b c : wsame a b -> wsame b c -> wsame a c.
-Proof. intros [A1 A2] [B1 B2]. split; [intro x; rewrite A1; apply B1|congruence]. Qed.
+Proof. intros (A1 & A2 & A3) (B1 & B2 & B3). split; [intro x; rewrite A1; apply B1|split; congruence]. Qed.
 
 Lemma get_add_balance_0 w a x : get_acc (add_balance w a 0) x = get_acc w x.
 Proof.
@@ -34,14 +34,14 @@ Proof.
         eapply IH; eauto. }
     destruct (Nat.ltb _ _); [injection H as <- _; apply wsame_refl|].
     destruct (Nat.ltb _ _); [injection H as <- _; apply wsame_refl|].
-    destruct (match i with WCall => negb (st (l_stack l) 2 =? 0) | _ => false end) eqn:Ev; [injection H as <- _; apply wsame_refl|].
+    destruct (match i with WCall => negb (st (l_stack l) 2 =? 0) | WCreate | WCreate2 | WSelfdestruct => true | _ => false end) eqn:Ev; [injection H as <- _; apply wsame_refl|].
     assert (Hnext : forall stack mem ret, run_frame b k ws fr (mkL (S (l_pc l)) stack mem ret) = (ws', o) -> wsame ws' ws)
       by (intros; eapply IH; eauto).
     assert (Hcall : forall (kindv : bool) w1 callee (rest : list Z) mem roff rsize,
               (forall x, get_acc w1 x = get_acc (ws_world ws) x) -> f_static callee = true ->
               match f_code callee with
-              | [] => run_frame b k (mkWs w1 (ws_logs ws)) fr (mkL (S (l_pc l)) (1 :: rest) mem [])
-              | _ => match run_frame b k (mkWs w1 (ws_logs ws)) callee (mkL 0 [] [] []) with
+              | [] => run_frame b k (mkWs w1 (ws_logs ws) (ws_dead ws)) fr (mkL (S (l_pc l)) (1 :: rest) mem [])
+              | _ => match run_frame b k (mkWs w1 (ws_logs ws) (ws_dead ws)) callee (mkL 0 [] [] []) with
                      | (ws2, FStop ret) => run_frame b k ws2 fr (mkL (S (l_pc l)) (1 :: rest) (mem_set mem roff rsize ret) ret)
                      | (_, FRevert ret) => run_frame b k ws fr (mkL (S (l_pc l)) (0 :: rest) (mem_set mem roff rsize ret) ret)
                      | (_, FFail) | (_, FOog) => run_frame b k ws fr (mkL (S (l_pc l)) (0 :: rest) mem [])
@@ -49,10 +49,10 @@ Proof.
                      end
               end = (ws', o) -> wsame ws' ws).
     { intros _ w1 callee rest mem roff rsize Hw Hc Hr.
-      assert (S1 : wsame (mkWs w1 (ws_logs ws)) ws) by (split; [exact Hw|reflexivity]).
+      assert (S1 : wsame (mkWs w1 (ws_logs ws) (ws_dead ws)) ws) by (split; [exact Hw|split; reflexivity]).
       destruct (f_code callee) eqn:Ec.
       - eapply wsame_trans; [eapply IH; [exact Hs|exact Hr]|exact S1].
-      - destruct (run_frame b k (mkWs w1 (ws_logs ws)) callee (mkL 0 [] [] [])) as [ws2 out] eqn:Er.
+      - destruct (run_frame b k (mkWs w1 (ws_logs ws) (ws_dead ws)) callee (mkL 0 [] [] [])) as [ws2 out] eqn:Er.
         pose proof (IH _ _ _ _ _ Hc Er) as S2.
         destruct out as [ret|ret| | |].
         + eapply wsame_trans; [eapply IH; [exact Hs|exact Hr]|]. eapply wsame_trans; [exact S2|exact S1].
@@ -64,6 +64,7 @@ Proof.
     + (* BALANCE *) cbn in H. eapply Hnext; exact H.
     + cbn in H. eapply Hnext; exact H.
     + destruct (mem_need _ _); try (injection H as <- _; apply wsame_refl); eapply Hnext; exact H.
+    + (* EXTCODEHASH: no cbn, the hash is not to be unfolded *) eapply Hnext; exact H.
     + cbn in H. eapply Hnext; exact H.
     + destruct (mem_need _ _); try (injection H as <- _; apply wsame_refl);
         (destruct (_ || _); [injection H as <- _; apply wsame_refl|eapply Hnext; exact H]).
@@ -94,5 +95,8 @@ Proof.
          destruct (Nat.ltb 1024 _); [eapply Hnext; exact H|];
          cbn [andb f_code] in H;
          eapply (Hcall true _ (mkFr _ _ _ _ _ _ _)); [| |exact H]; [reflexivity|reflexivity]).
+    + discriminate Ev.
+    + discriminate Ev.
+    + discriminate Ev.
 Qed.
 End Static.
